@@ -773,6 +773,40 @@ def subMany (w : BufW) : List (SubKind × Nat) → List (Option Nat)
   | [] => []
   | (k, id) :: t => (subQuery w k id).1 :: subMany (subQuery w k id).2 t
 
+/-! ### cache hits served as bytes (`serveHitFromWire`, `composeWireChase`) and answers built on
+another message (`dns64 buildAResponseAsBasis`): what is the request's stays the request's -/
+
+structure WireReq where
+  id : Nat
+  question : Bytes          -- the client's question section, its spelling included
+deriving Repr, DecidableEq
+
+structure WireEntry where
+  question : Bytes          -- the question the entry was admitted under (another client's spelling)
+  answers : Bytes
+deriving Repr, DecidableEq
+
+structure WireReply where
+  id : Nat
+  question : Bytes
+  answers : Bytes
+deriving Repr, DecidableEq
+
+/-- a flat hit and the chase composer alike: header from the entry with the
+reply identity overwritten, then THE CLIENT'S OWN question section
+(`req.Raw()[12:WireQuestionEnd()]`), then the stored answers -/
+def hitReply (q : WireReq) (e : WireEntry) : WireReply :=
+  { id := q.id, question := q.question, answers := e.answers }
+
+/-- a chase over several cached segments: still one question, the client's -/
+def chaseReply (q : WireReq) (segs : List WireEntry) : WireReply :=
+  { id := q.id, question := q.question, answers := segs.flatMap (·.answers) }
+
+/-- `buildAResponseAsBasis`: `SetReply(w.req)` — the CLIENT's header and question —
+then rcode / RA / records of the internal A sub-response -/
+def basisReply (client : WireReq) (sub : WireReply) : WireReply :=
+  { id := client.id, question := client.question, answers := sub.answers }
+
 /-! ### the failover writer (`middleware/failover` `ResponseWriter.WriteMsg`) -/
 
 /-- a reply as far as the client can tell replies apart: transaction id, rcode, content mark -/
